@@ -103,6 +103,21 @@ func Load(cfg Config, tests bool) (*World, error) {
 		return nil, fmt.Errorf("load %s: package %s not found (got %d packages)", cfg.Name, OtpPath, len(pkgs))
 	}
 	w.all = ssautil.AllFunctions(prog)
+	// nested function literals that AllFunctions does not reach (e.g. the yield closures of range-over-func loops)
+	var addAnon func(f *ssa.Function)
+	addAnon = func(f *ssa.Function) {
+		for _, a := range f.AnonFuncs {
+			if !w.all[a] {
+				w.all[a] = true
+			}
+			addAnon(a)
+		}
+	}
+	for f := range w.all {
+		if f.Pkg != nil {
+			addAnon(f)
+		}
+	}
 	for f := range w.all {
 		if w.InModule(f) && f.Blocks != nil {
 			w.mod = append(w.mod, f)
